@@ -353,6 +353,14 @@ def _run_history(prep, ops, fail, count, after_step, pm):
         opcalls = list(prep.log)        # collect() calls made by the call itself
         if op[0] == 'r' and err is None and op[1] not in before[1]:
             prep.frozen[op[1]] = prep.described_now(op[1])
+        elif (op[0] == 'r' and err is None and op[1] in prep.frozen
+              and claims_of(prep.described_now(op[1])) != claims_of(prep.frozen[op[1]])):
+            # an ALREADY registered collector that meanwhile describes other names was registered a second time and accepted
+            # (register() does not look whether the collector is registered): its recorded names are overwritten and the old
+            # ones stay mapped.  The statement does not say what a second registration of a registered collector means;
+            # counted and reported to the lead as an observation, the oracle stops for the rest of this history.
+            count('observation-registered-collector-reregistered-with-changed-description')
+            tainted = True
         after = snapshot(prep, reg)
         count('op-%s-%s' % (op[0], err or 'ok'))
 
